@@ -420,7 +420,7 @@ func addScale(p *fw.Prop) *fw.Prop {
 		p.Rule += fmt.Sprintf("; SCALE SWEEPS: all %d program schemas with a size parameter n that the other checks compare with closed-form results (section 2.2, E6) are run here for the same n with this property's oracle only: no panic, no error outside the three kinds", len(fams))
 		return p
 	}
-	p.Rule += "; SCALE SWEEPS: program schemas with one size parameter n and a closed-form expected output, run for EVERY n <= 72 (thorough: every n <= 1100) and for the neighbourhood of every power of two and of ten up to the family's maximum: " + strings.Join(names, "; ") + " -- stdout and outcome must equal the closed form (and the reference interpreter's result where it accepts the program)"
+	p.Rule += "; SCALE SWEEPS: program schemas with one size parameter n and a closed-form expected output, run for EVERY n <= 72 (thorough: every n <= 1100; <= 200 for the two stream families of C03 whose reference costs n^2 per size) and for the neighbourhood of every power of two and of ten up to the family's maximum: " + strings.Join(names, "; ") + " -- stdout and outcome must equal the closed form (and the reference interpreter's result where it accepts the program)"
 	return p
 }
 
